@@ -77,11 +77,11 @@ func BuildUnixFSFile(r io.Reader, chunker string, ls *ipld.LinkSystem) (ipld.Lin
 		if prev != nil && prev[0].link == next.link {
 			if next.link == nil {
 				node := basicnode.NewBytes([]byte{})
-				link, err := ls.Store(ipld.LinkContext{}, leafLinkProto, node)
+				link, sz, err := sizedStore(ls, leafLinkProto, node)
 				if err != nil {
 					return nil, 0, err
 				}
-				return link, 0, nil
+				return link, sz, nil
 			}
 			return next.link, next.storedSize, nil
 		}
